@@ -11,7 +11,7 @@ FAMILIES = {
     "A2": (("{7}", 9), ("{7, 2000}", 1), 800),
     "M1": (("{7, 2000}", 1), ("{7, 1000, 2000, 3000, 4000, 61}", 1), 100),
     "M2": (("{7}", 11), ("{7, 1000}", 1), 400),
-    "MR": (("{7}", 1), ("{7, 2000}", 1), 100),
+    "MR": (("{7}", 3), ("{7, 2000}", 1), 100),          # the stride thins only the generic-builder part
     "I": (("{7}", 1), ("{7, 2000}", 1), 500),
     "G": (("{7}", 1), ("{7, 1000, 2000}", 1), 100),
     "S": (("{7, 2000}", 1), ("{7, 1000, 2000, 3000, 4000, 61}", 1), 30),
